@@ -118,7 +118,7 @@ func (cred *etcdCredentials) Password() string {
 }
 
 func parseCredentials(creds string) (string, string, error) {
-	parts := strings.Split(creds, ":")
+	parts := strings.SplitN(creds, ":", 2)
 	if len(parts) < 2 {
 		return "", "", fmt.Errorf("bad format")
 	}
